@@ -178,7 +178,7 @@ func genRequests(r *vlib.Rng) []request {
 	// the same natural requests with a query string: the query is not part of the operation
 	nat := append([]request{}, out[len(out)-6:]...)
 	// every value of the integer path parameter is an instance of the read-only template
-	for _, e := range []string{"0", "999999999999999999", "1000000000000000000", "9223372036854775807", fmt.Sprint(r.Uint64() >> 1)} {
+	for _, e := range []string{"0", "999999999999999999", "1000000000000000000", "9223372036854775807", fmt.Sprint(r.Uint64() >> 1), "+5", "-0", "007"} {
 		out = append(out, request{method: "GET", path: "/v1/decryptionKey/" + e + "/0x" + strings.Repeat("2", 64), bodyKind: "none", verbatim: true, canon: "/v1/decryptionKey/any/0x2222"})
 	}
 	for _, q := range []string{"?x=1", "?", "?a=b&c=/v1/shutdown"} {
